@@ -5,7 +5,8 @@
    or, in conditional expressions, as sleep() argument) with its scripted inputs, or one host
    Button history.  The sketch interpreter below only *composes* the device models of
    Device/DButton.v, DPot.v, DUltra.v in the order in which parser/emitter lay the statements out:
-     setup():  one digitalRead per button declared before the main loop (declaration order)
+     setup():  one digitalRead per button (declaration order: the buttons declared before the main loop,
+               then those declared at the top of the loop body)
      loop():   the polls of all buttons (name order), then the body statements.
    Events are encoded as lists of integers:
      (1 pin v)  digitalRead        (2 i)      on_click handler of button i entered
@@ -67,9 +68,9 @@ Fixpoint set_nth {A} (n : nat) (x : A) (l : list A) : list A :=
 Definition ev (l : list Z) : wv := WL (map WI l).
 Definition bad_ev : wv := ev [99].
 
-(* the digitalRead index of pass k: the setup sample comes first for a declaration before the loop *)
+(* the digitalRead index of pass k: the setup sample comes first, for either declaration place *)
 Definition sample_of (bd : bdesc) (k : nat) : bool :=
-  zbool (nth_rep (bd_samples bd) 0 (match bd_place bd with BeforeLoop => S k | LoopTop => k end)).
+  zbool (nth_rep (bd_samples bd) 0 (match bd_place bd with BeforeLoop => S k | LoopTop => S k end)).
 
 Definition enc_bev (pin idx : Z) (e : bev) : wv :=
   match e with
@@ -416,7 +417,13 @@ Definition run_sketch (sk : sketch) (n : nat) (clock0 : Z) : wv :=
                 s_btn := map fst setups;
                 s_pidx := map (fun _ => O) (k_pots sk);
                 s_us := map (fun _ => (u_init, O)) (k_ultras sk) |} in
-  wok [WL (flat_map snd setups); WL (run_passes sk n O st0)].
+  (* setup(): the samples of the buttons declared before the loop, then those of the loop-top buttons *)
+  let sevs (pl : place) :=
+    flat_map (fun bd => match bd_place bd, pl with
+                        | BeforeLoop, BeforeLoop | LoopTop, LoopTop => snd (setup_one bd)
+                        | _, _ => []
+                        end) (k_buttons sk) in
+  wok [WL (sevs BeforeLoop ++ sevs LoopTop); WL (run_passes sk n O st0)].
 
 (* ---- decoding *)
 Definition un_nat (v : wv) : option nat :=
